@@ -25,20 +25,26 @@ RULE = ("Hypothesis builds operator programs structure-first (properly nested q/
 ASSUMPTIONS = ["reference interpreter written from ISO 32000-1 9.3-9.4",
                "initial colour is reported as None by convention; LTChar.adv = w0*Tfs*Th"]
 
+# /Widths covers FirstChar..LastChar; a code outside that range takes the descriptor's /MissingWidth, an explicit 0 inside it
+# stays 0 (ISO 32000-1 9.6.2.1, Table 122)
 FONTS = {
-    "F1": {"name": "FntA", "widths": {32: 125, 65: 500, 66: 250, 67: 1000, 68: 0}},
-    "F2": {"name": "FntB", "widths": {32: 500, 65: 750, 66: 375, 67: 625, 68: 125}},
-    "F3": {"name": "FntC", "widths": {65: 1000, 66: 1000, 67: 250, 68: 875}},  # code 32 has no width entry
+    "F1": {"name": "FntA", "widths": {32: 125, 65: 500, 66: 250, 67: 1000, 68: 0}, "first": 32, "last": 69, "missing": 375},
+    "F2": {"name": "FntB", "widths": {32: 500, 65: 750, 66: 375, 67: 625, 68: 125}, "first": 32, "last": 69, "missing": 0},
+    # code 32 lies outside the /Widths range of this font
+    "F3": {"name": "FntC", "widths": {65: 1000, 66: 1000, 67: 250, 68: 875}, "first": 65, "last": 68, "missing": 625},
 }
+for _f in FONTS.values():
+    for _c in range(_f["first"], _f["last"] + 1):
+        _f["widths"].setdefault(_c, 0)
 ALT = {"F1": FONTS["F2"], "F2": FONTS["F3"], "F3": FONTS["F1"]}  # a form's own /Resources may rebind the names
 
 
 def font_obj(f):
-    w = [f["widths"].get(c, 0) for c in range(32, 70)]
-    return W.D(Type=W.N("Font"), Subtype=W.N("Type1"), BaseFont=W.N(f["name"]), FirstChar=32, LastChar=69, Widths=w,
-               Encoding=W.N("WinAnsiEncoding"),
+    w = [f["widths"].get(c, 0) for c in range(f["first"], f["last"] + 1)]
+    return W.D(Type=W.N("Font"), Subtype=W.N("Type1"), BaseFont=W.N(f["name"]), FirstChar=f["first"], LastChar=f["last"],
+               Widths=w, Encoding=W.N("WinAnsiEncoding"),
                FontDescriptor=W.D(Type=W.N("FontDescriptor"), FontName=W.N(f["name"]), Flags=32,
-                                  FontBBox=[0, 0, 1000, 1000], Ascent=800, Descent=0, MissingWidth=0))
+                                  FontBBox=[0, 0, 1000, 1000], Ascent=800, Descent=0, MissingWidth=f["missing"]))
 
 
 def num_val(v):
@@ -274,29 +280,63 @@ def text_object(draw, N, allow_bad):
     return ("BT", ops + body)
 
 
+NCOMP = {"g": 1, "rg": 3, "k": 4}
+
+
+def _track(cs, ops):
+    """cs = [non-stroking, stroking] component counts of the current colour spaces after `ops`."""
+    for o in ops:
+        if o[0] == "BT":
+            _track(cs, o[1])
+        elif isinstance(o[0], str) and o[0].lower() in NCOMP and o[0] != "bad":
+            cs[0 if o[0].islower() else 1] = NCOMP[o[0].lower()]
+
+
 @st.composite
-def block(draw, N, depth, forms, allow_bad, form_names):
+def block(draw, N, depth, forms, allow_bad, form_names, cs=None):
+    """cs: component counts of the current colour spaces (part of the graphics state: saved by q, restored by Q,
+    inherited by a form XObject, restored after it); None = not tracked."""
     out = []
+    cs = list(cs) if cs is not None else [None, None]
     n = draw(st.integers(1, 5))
     for _ in range(n):
-        k = draw(st.integers(0, 9))
+        k = draw(st.integers(0, 10))
         if k <= 3:
             out.append(draw(text_object(N, allow_bad)))
+            _track(cs, out[-1:])
         elif k == 4:
             out.append(("cm", draw(N["mat"])))
         elif k == 5:
             out.append(draw(colour_op(N, draw(st.booleans()))))
+            _track(cs, out[-1:])
         elif k in (6, 7) and depth < 2:
             out.append(("q",))
-            out.extend(draw(block(N, depth + 1, forms, allow_bad, form_names)))
+            out.extend(draw(block(N, depth + 1, forms, allow_bad, form_names, cs)))
             out.append(("Q",))
         elif k == 8 and form_names:
-            out.append(("Do", draw(st.sampled_from(form_names))))
+            name = draw(st.sampled_from(form_names))
+            need = forms[name].get("need")
+            if need is not None:
+                # the form sets colours in the colour spaces it inherits (ISO 32000-1 8.10.1): the caller
+                # establishes them first
+                for i in (0, 1):
+                    if cs[i] != need[i]:
+                        op = {1: "g", 3: "rg", 4: "k"}[need[i]]
+                        out.append((op.upper() if i else op,) + tuple(draw(N["col"]) for _ in range(need[i])))
+                        cs[i] = need[i]
+            out.append(("Do", name))
         elif k == 9 and allow_bad and draw(st.booleans()):
             # broken cm wrapped in q .. Q
             out.extend([("q",), ("bad", [b"1", b"0", b"/X", b"1", b"0", b"0", b"cm"]), ("Q",)])
+        elif k == 10 and cs[0] is not None and cs[1] is not None:
+            # colour set in the current colour space, whichever operator established it
+            stroking = draw(st.integers(0, 3)) == 0
+            vals = tuple(draw(N["col"]) for _ in range(cs[1 if stroking else 0]))
+            nm = draw(st.sampled_from(["sc", "scn"]))
+            out.append(("SC" if stroking else "sc", vals, nm.upper() if stroking else nm))
         else:
             out.append(draw(text_object(N, allow_bad)))
+            _track(cs, out[-1:])
     return out
 
 
@@ -316,13 +356,16 @@ def cases(draw, max_forms=2):
         # A form without /Resources uses the page's resources (ISO) / its caller's (pdfminer); both coincide as
         # long as it is never invoked from a form whose own /Resources rebind the font names.
         callable_names = [nm for nm in names if forms[nm].get("own")] if alt else list(names)
-        ops = draw(block(N, 1, forms, False, callable_names))
-        if draw(st.booleans()):
+        # component counts of the (non-stroking, stroking) colour spaces the form relies on inheriting, or None
+        need = draw(st.sampled_from([None, None, (1, 3), (3, 1), (3, 4), (4, 1), (1, 1), (4, 3)]))
+        ops = draw(block(N, 1, forms, False, callable_names, need))
+        if need is None and draw(st.booleans()):
             # self-contained start: the form sets what it uses, so it does not depend on inherited state
             ops = [draw(colour_op(N))] + ops
-        forms[name] = {"matrix": draw(st.one_of(st.just(TM.I6), N["mat"])), "ops": ops, "own": own, "alt": alt}
+        forms[name] = {"matrix": draw(st.one_of(st.just(TM.I6), N["mat"])), "ops": ops, "own": own, "alt": alt,
+                       "need": need}
         names.append(name)
-    prog = draw(block(N, 0, forms, allow_bad, names))
+    prog = draw(block(N, 0, forms, allow_bad, names, [1, 1]))
     natoms = len(TM.prog_atoms(prog))
     cuts = []
     if draw(st.integers(0, 2)) == 0 and natoms > 2:
